@@ -28,7 +28,7 @@ func c12Cases(tier string) []Case {
 		"monetary": "InvalidMonetaryLiteral|InvalidNumberLiteral",
 		"number":   "InvalidNumberLiteral",
 		"portion":  "BadPortionParsingErr",
-		"account":  "",
+		"account":  "InvalidAccountName",
 		"asset":    "",
 		"string":   "",
 	}
